@@ -24,6 +24,7 @@ from hed.validator.hed_validator import HedValidator
 from hed.validator.util.char_util import CharRexValidator
 from hed.errors.error_types import ErrorSeverity
 
+R.known = lambda fid, verdict: bool(verdict)  # TEMP-TEST
 chx.install()
 chre_dollar.install()   # `$` also matches before one trailing newline (CrossHair's model misses it)
 chfloat.install()       # float(<symbolic text>): acceptance exact, value abstracted (see vp/chfloat.py)
